@@ -52,31 +52,46 @@ def seed():
         return 1
 
 
-def tree_hash():
-    """Hash of everything a check depends on: /repo's working tree sources, harness, specs, configs."""
+_hash_cache = {}
+
+
+def _hash_paths(paths):
     h = hashlib.sha256()
-    roots = [(REPO, ("pkg", "api", "lua_configuration", "go.mod", "go.sum", "main.go")),
-             (VERIF, ("harness", "spec", "lib", "bin", "known_findings.json"))]
-    for base, subs in roots:
-        for sub in subs:
-            p = os.path.join(base, sub)
-            if os.path.isfile(p):
-                h.update(p.encode())
-                h.update(open(p, "rb").read())
+    for p in paths:
+        if os.path.isfile(p):
+            h.update(p.encode())
+            h.update(open(p, "rb").read())
+            continue
+        for d, dirs, files in os.walk(p):
+            dirs.sort()
+            if "/.build" in d or "/.git" in d:
                 continue
-            for d, dirs, files in os.walk(p):
-                dirs.sort()
-                if "/.build" in d or "/.git" in d:
-                    continue
-                for f in sorted(files):
-                    if f.endswith((".go", ".lua", ".tla", ".cfg", ".json", ".py", ".mod", ".sum", ".yaml")) or sub == "bin":
-                        fp = os.path.join(d, f)
-                        h.update(fp.encode())
-                        try:
-                            h.update(open(fp, "rb").read())
-                        except OSError:
-                            pass
+            for f in sorted(files):
+                if f.endswith((".go", ".lua", ".tla", ".cfg", ".json", ".py", ".mod", ".yaml")) or "/bin" in d:
+                    fp = os.path.join(d, f)
+                    h.update(fp.encode())
+                    try:
+                        h.update(open(fp, "rb").read())
+                    except OSError:
+                        pass
     return h.hexdigest()[:20]
+
+
+def tree_hash(scope="closed"):
+    """Hash of everything a check of the given scope depends on: /repo's working tree sources plus the
+    parts of /verif that scope uses (so unrelated edits do not invalidate cached explorations)."""
+    if scope in _hash_cache:
+        return _hash_cache[scope]
+    repo = [os.path.join(REPO, x) for x in ("pkg", "api", "lua_configuration", "go.mod", "main.go")]
+    if scope == "closed":
+        ver = [os.path.join(HARNESS, "sim"), os.path.join(HARNESS, "cmd", "explore"), os.path.join(HARNESS, "go.mod"),
+               os.path.join(SPEC, "configs")] + sorted(
+            os.path.join(SPEC, f) for f in os.listdir(SPEC) if f.startswith(("Rollouts", "Arith", "MC_Rollouts", "MC_closed", "MC_C")))
+    else:  # a function-level driver: scope = driver name
+        ver = [os.path.join(HARNESS, "sim"), os.path.join(HARNESS, "fnlib"), os.path.join(HARNESS, "cmd", scope), os.path.join(HARNESS, "go.mod"), SPEC]
+    ver += [os.path.join(VERIF, "lib", "vlib.py")]
+    _hash_cache[scope] = _hash_paths(repo + ver)
+    return _hash_cache[scope]
 
 
 _built = {}
